@@ -35,5 +35,7 @@ CONF = {
     ],
     "trace": {"module": "CodecTrace", "cfg": "Trace_Codec.cfg"},
     "signature": sig,
-    "assumptions": [],
+    "assumptions": [
+        "CPU/NUMA restart: a quarter of the live allocations are carried by Reservation objects (persisted by the real PreBindReservation, re-learnt through the real reservation-to-pod event handler; every other one with a template that still carries a pod's old allocation); quota restart: the running pods p1 / p4 carry a deletionTimestamp ahead of the clock and a finalizer",
+    ],
 }
